@@ -327,10 +327,11 @@ def nhFromBytes (b : Bytes) : Option Bytes :=
 /-- IPv4/IPv6 unicast+multicast entries over a `BgpReader`; every failure is
     `UpdateMalformedAttributeList`. `maxBits` = 32 / 128. -/
 def nlriLoop (maxBits : Nat) (addpath : Bool) : Nat → Bytes → List PNlri → Out (List PNlri)
+  -- `acc` is kept in reverse order
   | 0, _, _ => .panic
   | fuel + 1, bs, acc =>
       match bs with
-      | [] => .ok acc
+      | [] => .ok acc.reverse
       | _ :: _ =>
           let rest := bs.length
           -- decode_nlri: path id
@@ -346,7 +347,7 @@ def nlriLoop (maxBits : Nat) (addpath : Bool) : Nat → Bytes → List PNlri →
                 if len < n ∨ bl > maxBits then .err eMalformed
                 else if bs2.length < n then .err eMalformed
                 else nlriLoop maxBits addpath fuel (bs2.drop n)
-                      (acc ++ [⟨id, bl, padTo (bs2.take n) (maxBits / 8)⟩])
+                      (⟨id, bl, padTo (bs2.take n) (maxBits / 8)⟩ :: acc)
 
 def isV4Fam (f : Nat) : Bool := f == 65537 || f == 65538
 def isV6Fam (f : Nat) : Bool := f == 131073 || f == 131074
